@@ -610,11 +610,33 @@ void j_unary(Ctx & c, int64_t a, int64_t, int64_t)
     if(ab.v < 0 || !model_finite(ab.v) || !model_finite(n1.v)) c.violation("abs-neg/not-finite", (int)ci, a, 0, 0, i2s(ab.v), "finite >= 0");
     }
   }
-void c06_init() { LT = resolve("cmp_lt"); LE = resolve("cmp_le"); GT = resolve("cmp_gt"); GE = resolve("cmp_ge"); EQ = resolve("cmp_eq"); NE = resolve("cmp_ne"); ISNAN = resolve("isnan"); NEG = resolve("neg"); ABS = resolve("abs"); }
+Fn LIM_MAX, LIM_LOWEST, LIM_NAN;
+// The range of finite values is what the library's own numeric_limits says it is: lowest() and max() must themselves be
+// finite (not a NaN sentinel), negation and abs must map them to finite values (which forces lowest() == -max()), and the
+// reported quiet_NaN must be recognised by isnan and sit above max().
+void j_limits(Ctx & c, int64_t, int64_t, int64_t)
+  {
+  c.stratum("numeric-limits"); c.nontrivial(hash3(61, 0, 0));
+  for(size_t ci = 0; ci < g_cfgs.size(); ++ci)
+    {
+    CallRes mx = c.call(LIM_MAX.f[ci], 0, 0), lo = c.call(LIM_LOWEST.f[ci], 0, 0), nn = c.call(LIM_NAN.f[ci], 0, 0);
+    if(mx.sig || lo.sig || nn.sig) { c.signal_event((int)ci, "numeric_limits", 0, 0, mx.sig ? mx.sig : (lo.sig ? lo.sig : nn.sig)); continue; }
+    auto call1 = [&](Fn & f, int64_t x) { CallRes r = c.call(f.f[ci], x, 0); return r.sig ? INT64_MIN : r.v; };
+    auto call2 = [&](Fn & f, int64_t x, int64_t y) { CallRes r = c.call(f.f[ci], x, y); return r.sig ? INT64_MIN : r.v; };
+    if(call1(ISNAN, mx.v) != 0 || model_isnan(mx.v)) c.violation("limits_max/is-a-nan-sentinel", (int)ci, mx.v, 0, 0, i2s(mx.v), "a finite value");
+    if(call1(ISNAN, lo.v) != 0 || model_isnan(lo.v)) c.violation("limits_lowest/is-a-nan-sentinel", (int)ci, lo.v, 0, 0, i2s(lo.v), "a finite value");
+    if(call1(ISNAN, nn.v) != 1) c.violation("limits_nan/not-recognised-by-isnan", (int)ci, nn.v, 0, 0, i2s(nn.v), "isnan(quiet_NaN()) true");
+    if(call1(NEG, lo.v) != mx.v || call1(NEG, mx.v) != lo.v) c.violation("limits/negation-leaves-the-finite-range", (int)ci, lo.v, mx.v, 0, i2s(call1(NEG, lo.v)) + "," + i2s(call1(NEG, mx.v)), "-lowest() == max() and -max() == lowest()");
+    if(call1(ABS, lo.v) != mx.v) c.violation("limits/abs-leaves-the-finite-range", (int)ci, lo.v, 0, 0, i2s(call1(ABS, lo.v)), i2s(mx.v));
+    if(call2(LT, lo.v, mx.v) != 1 || call2(GT, nn.v, mx.v) != 1) c.violation("limits/not-ordered", (int)ci, lo.v, mx.v, 0, "lowest<max: " + i2s(call2(LT, lo.v, mx.v)) + ", NaN>max: " + i2s(call2(GT, nn.v, mx.v)), "lowest() < max() < quiet_NaN()");
+    }
+  }
+void c06_init() { LIM_MAX = resolve("limits_max"); LIM_LOWEST = resolve("limits_lowest"); LIM_NAN = resolve("limits_nan"); LT = resolve("cmp_lt"); LE = resolve("cmp_le"); GT = resolve("cmp_gt"); GE = resolve("cmp_ge"); EQ = resolve("cmp_eq"); NE = resolve("cmp_ne"); ISNAN = resolve("isnan"); NEG = resolve("neg"); ABS = resolve("abs"); }
 extern Property P_C06;
 void c06_run(Ctx & c)
   {
   const Check & CMP = P_C06.checks[0], & UN = P_C06.checks[1];
+  if(c.shard == 0) c.run_check(P_C06.checks[2], 0);
   std::vector<int64_t> L = lattice_with({ RAW_NAN, RAW_NNAN, INT64_MIN });
   uint64_t idx = 0;
   for(int64_t a : L) for(int64_t b : L) if(c.mine(idx++)) c.run_check(CMP, a, b);
@@ -631,8 +653,9 @@ void c06_run(Ctx & c)
   }
 Property P_C06 = { "C06", c06_init, c06_run,
   { { "cmp", j_cmp, "six comparison operators against int64 comparison of raws; a,b any 64-bit raw (both sentinels, INT64_MIN included)" },
-    { "unary", j_unary, "isnan on any raw; -x, -(-x), abs(x), abs(-x) on finite raws" } },
-  { "cmp-with-nan", "cmp-finite", "cmp-equal", "unary-nan", "unary-finite" },
+    { "unary", j_unary, "isnan on any raw; -x, -(-x), abs(x), abs(-x) on finite raws" },
+    { "limits", j_limits, "numeric_limits<fixed_t>: lowest() and max() are finite, closed under negation and abs, ordered below quiet_NaN(), which isnan recognises" } },
+  { "numeric-limits", "cmp-with-nan", "cmp-finite", "cmp-equal", "unary-nan", "unary-finite" },
   "comparison involving a NaN sentinel; unary argument NaN, max(), lowest() or 0; distinct by (a,b)", {}, {} };
 Registrar R_C06(&P_C06);
 
